@@ -62,9 +62,9 @@ class C14(Monitor):
         if val and norm:
             why = conformant(wire, 'request' if kind == 'push' else kind)
             if why is not None:
-                self.fail('non-conformant-emitted', '%s block emitted although %s' % (kind, why), s, kind=kind)
+                self.fail('non-conformant-emitted', '%s block emitted although %s' % (kind, why), s, block=kind)
         elif val:
             # validation without normalisation promises the structural rules only
             why = conformant(wire, 'request' if kind == 'push' else kind)
             if why is not None and why not in ('uppercase name', 'name whitespace', 'value whitespace'):
-                self.fail('non-conformant-emitted', '%s block emitted although %s' % (kind, why), s, kind=kind)
+                self.fail('non-conformant-emitted', '%s block emitted although %s' % (kind, why), s, block=kind)
